@@ -22,6 +22,15 @@ PI = z3.Real("PI")
 PI_AXIOM = z3.And(PI > z3.RealVal("3.14159"), PI < z3.RealVal("3.1416"))
 
 
+def mk_ite_bool(c, a, b):
+    if c is True:
+        return a
+    if c is False:
+        return b
+    from .values import zbool
+    return z3.If(c, zbool(a), zbool(b))
+
+
 def join_kind(k1, k2):
     if "real" in (k1, k2):
         return "real"
@@ -146,6 +155,15 @@ class NumpyModel:
         return self.scalar_binop(st, op, a, b, node)
 
     def scalar_binop(self, st, op, a, b, node, elementwise=False):
+        from .values import OptV
+        if (isinstance(a, OptV) and a.nanlike) or (isinstance(b, OptV) and b.nanlike):
+            an = a.is_none if isinstance(a, OptV) else False
+            bn = b.is_none if isinstance(b, OptV) else False
+            av = a.value if isinstance(a, OptV) else a
+            bv = b.value if isinstance(b, OptV) else b
+            if op in ("/", "//", "%"):
+                raise Unsupported("division involving a possibly-nan value")
+            return OptV(mk_or(an, bn), self.scalar_binop(st, op, av, bv, node, elementwise), nanlike=True)
         if a is NONE or b is NONE:
             raise Unsupported("arithmetic on None")
         if op == "+":
@@ -187,6 +205,16 @@ class NumpyModel:
                 raise Unsupported("`is` between non-None values")
             r = (an and bn)
             return r if op == "is" else (not r)
+        from .values import OptV as _OptV
+        if (isinstance(a, _OptV) and a.nanlike) or (isinstance(b, _OptV) and b.nanlike):
+            an = a.is_none if isinstance(a, _OptV) else False
+            bn = b.is_none if isinstance(b, _OptV) else False
+            av = a.value if isinstance(a, _OptV) else a
+            bv = b.value if isinstance(b, _OptV) else b
+            anynan = mk_or(an, bn)
+            if op == "!=":
+                return mk_or(anynan, num_cmp(op, av, bv))
+            return mk_and(mk_not(anynan), num_cmp(op, av, bv))       # IEEE: comparisons with nan are False
         if isinstance(a, Arr) or isinstance(b, Arr):
             return self.elementwise(st, lambda x, y: num_cmp(op, x, y), [a, b], node, kind="bool", what=f"comparison {op}")
         if isinstance(a, str) or isinstance(b, str):
@@ -325,7 +353,13 @@ class NumpyModel:
                 plan.append(("fix", self.norm_index(st, k, n, node, "array index")))
         out_dims = [p for p in plan if p[0] == "map"]
         if not out_dims:
-            return a.get(*[p[1] for p in plan])
+            idxs = [p[1] for p in plan]
+            if a.nanmask is not None:
+                from .values import OptV
+                return OptV(a.nanmask(*idxs), a.get(*idxs), nanlike=True)
+            return a.get(*idxs)
+        if a.nanmask is not None:
+            raise Unsupported("slicing / gathering a possibly-nan array")
         shape = tuple(p[1] for p in out_dims)
 
         def get(*idx):
@@ -441,6 +475,20 @@ class NumpyModel:
         kind = a.kind
         if kind == "int" and ((isinstance(val, Arr) and val.kind == "real") or (not isinstance(val, Arr) and is_realv(val))):
             raise Unsupported("storing a real into an integer array (silent truncation in numpy)")
+        new_nan = None
+        if a.nanmask is not None:
+            from .values import OptV
+            if isinstance(val, Arr):
+                raise Unsupported("array store into a possibly-nan array")
+            vnan = val.is_none if isinstance(val, OptV) else False
+            val = val.value if isinstance(val, OptV) else val
+            old_nan = a.nanmask
+
+            def new_nan(*idx):
+                inside = []
+                for c, i in zip(conds, idx):
+                    inside.append(num_cmp("==", i, c[1]) if c[0] == "fix" else mk_and(num_cmp("<=", c[1], i), num_cmp("<", i, c[2])))
+                return mk_ite_bool(mk_and(*inside), vnan, old_nan(*idx))
 
         def get(*idx):
             inside, outs = [], []
@@ -458,4 +506,6 @@ class NumpyModel:
                 v = cast(val, kind)
             return mk_ite(mk_and(*inside), v, a.get(*idx))
 
+        if new_nan is not None:
+            return a.with_(get=get, fn=None, affine=None, nanmask=new_nan)
         return a.with_(get=get, fn=None, affine=None)
